@@ -94,7 +94,179 @@ def filter_like(prop, tier, seed, replay, unk):
     return 1 if viol else 0
 
 
+def reasm(prop, tier, seed, replay):
+    """C16: stream reassembly independent of chunking."""
+    t0 = time.time()
+    wd = workdir(prop)
+    bindir = build_harness()
+    out = os.path.join(wd, "rec")
+    if replay:
+        rep = json.load(open(replay))
+        cf = os.path.join(wd, "cases.ndjson")
+        with open(cf, "w") as f:
+            f.write(json.dumps(rep["case"]) + "\n")
+        cmd = "%s/drive-reasm --cases %s --out %s" % (bindir, cf, out)
+        states = trans = 1
+        minfo = {}
+    else:
+        if os.environ.get("VERIF_NO_MODEL"):
+            r = {"violated": None, "distinct": 1, "states": 1, "wall": 0}
+        else:
+            r = tlc_model("MC_Reassembly.tla", "MC_Reassembly.cfg" if tier == "quick"
+                          else "MC_Reassembly_big.cfg", wd, workers=8, timeout=2400)
+        if r["violated"]:
+            raise ToolError("Reassembly design model violates %s" % r["violated"])
+        states, trans = r["distinct"], r["states"]
+        minfo = {"module": "MC_Reassembly.tla", "distinct_states": states,
+                 "wall_s": round(r["wall"], 1)}
+        n = 8 if tier == "quick" else 120
+        cmd = "%s/drive-reasm --streams %d --random %d --seed %d --out %s" % (
+            bindir, n, 40 if tier == "quick" else 200, seed, out)
+    rc, o = sh(cmd, timeout=3000)
+    stats = json.loads(o.strip().splitlines()[-1])
+    tracefile = os.path.join(out, "trace.ndjson")
+    bad, consumed, total, _ = tlc_trace("TraceReasm.tla", "TraceReasm.cfg", tracefile, wd,
+                                        timeout=6000, heap="12g")
+    viol = []
+    if bad:
+        cases = {}
+        with open(os.path.join(out, "cases.ndjson")) as f:
+            for l in f:
+                c = json.loads(l)
+                cases[c["tr"]] = c
+        for (p, line, trn, _) in bad:
+            viol.append(cases[trn])
+        viol.sort(key=lambda c: (sum(len(x) for x in c["stream"]), len(c["cuts"])))
+    for c in viol[:3]:
+        if replay:
+            path = replay
+        else:
+            os.makedirs(REPLAYS, exist_ok=True)
+            path = os.path.join(REPLAYS, "%s-%d-%s.json" % (prop, seed, digest(c)))
+            json.dump({"property": prop, "kind": "reasm", "case": c}, open(path, "w"), indent=1)
+        print("VIOLATION property=%s replay=%s" % (prop, path))
+        log("  stream sizes=%s buf=%s cuts=%s" % ([len(x) // 2 for x in c["stream"]], c["buf"], c["cuts"]))
+    if not replay:
+        # distinct (stream shape, buffer, chunk-length sequence) cases with at least one cut
+        distinct = set()
+        samples = []
+        cur = None
+        with open(tracefile) as f:
+            for l in f:
+                o = json.loads(l)
+                if o["op"] == "reset":
+                    if cur and len(cur["calls"]) > 1:
+                        distinct.add(digest(cur))
+                        if len(samples) < 3 and len(cur["calls"]) in (3, 4, 5):
+                            samples.append(cur)
+                    cur = {"stream": o["stream"], "buf": o["buf"], "calls": []}
+                else:
+                    cur["calls"].append([o.get("n", -1), o.get("kind", o["op"]), o.get("consumed", -1),
+                                         o.get("missing", -1)])
+        write_evidence(prop, tier, seed, "model_checking", {
+            "states": states, "transitions": trans,
+            "traces_validated_against_impl": stats["traces"],
+            "samples": samples or [{"note": "no short sample"}],
+            "evaluations": total,
+            "distinct_nontrivial": len(distinct),
+            "rule": "one trace = one generated stream of 1-3 packets (valid, or with an invalid header), one "
+                    "buffer size around the packet sizes and one chunking (all 1-, 2- and for streams up to 44 "
+                    "bytes 3-cut chunkings incl. empty chunks for short streams; random multi-cut and "
+                    "byte-by-byte for long ones); every decode call is predicted exactly by Reassembly!Feed; "
+                    "non-trivial = more than one decode call; distinct by (stream shape, buffer, call sequence)",
+            "driver": stats, "model": minfo, "exhaustive": False,
+        }, time.time() - t0, len(viol), ASSUME)
+    return 1 if viol else 0
+
+
+def simple_records(prop, tier, seed, replay, *, model, driver_cmd, replay_cmd, trace_spec,
+                   case_of, rule, nontrivial, sample_of, builds=("debug",)):
+    """Generic pipeline: design-level model + records of real executions validated by TLC, one
+    record per line, each judged independently."""
+    t0 = time.time()
+    wd = workdir(prop)
+    states = trans = 1
+    minfo = {}
+    if not replay and model and not os.environ.get("VERIF_NO_MODEL"):
+        r = tlc_model(model[0], model[1], wd, workers=8, timeout=2400)
+        if r["violated"]:
+            raise ToolError("%s design model violates %s" % (model[0], r["violated"]))
+        states, trans = r["distinct"], r["states"]
+        minfo = {"module": model[0], "cfg": model[1], "distinct_states": states,
+                 "wall_s": round(r["wall"], 1)}
+    viol, total, distinct, samples, stats_all = [], 0, set(), [], []
+    for b in builds:
+        bindir = build_harness(release=(b == "release"))
+        out = os.path.join(wd, "rec-" + b)
+        if replay:
+            rep = json.load(open(replay))
+            cf = os.path.join(wd, "cases.json")
+            json.dump({"cases": rep["cases"]}, open(cf, "w"))
+            cmd = replay_cmd(bindir, cf, out)
+        else:
+            cmd = driver_cmd(bindir, out)
+        rc, o = sh(cmd, timeout=6000)
+        stats_all.append({"build": b, **json.loads(o.strip().splitlines()[-1])})
+        tracefile = os.path.join(out, "trace.ndjson")
+        bad, consumed, n, _ = tlc_trace(trace_spec[0], trace_spec[1], tracefile, wd, timeout=6000,
+                                        heap="12g")
+        total += n
+        recs = read_records(tracefile)
+        for r in recs:
+            if nontrivial(r):
+                distinct.add(digest(case_of(r)))
+        if not samples:
+            samples = [sample_of(r) for r in recs if nontrivial(r)][:3]
+        for (p, line, _, _) in bad:
+            if p == prop:
+                viol.append((b, recs[line - 1]))
+    viol.sort(key=lambda v: len(json.dumps(case_of(v[1]))))
+    for b, r in viol[:3]:
+        if replay:
+            path = replay
+        else:
+            os.makedirs(REPLAYS, exist_ok=True)
+            path = os.path.join(REPLAYS, "%s-%d-%s.json" % (prop, seed, digest(case_of(r))))
+            json.dump({"property": prop, "kind": trace_spec[0], "build": b, "cases": [case_of(r)],
+                       "record": r}, open(path, "w"), indent=1)
+        print("VIOLATION property=%s replay=%s" % (prop, path))
+        log("  [%s build] %s" % (b, json.dumps(sample_of(r))[:300]))
+    if not replay:
+        write_evidence(prop, tier, seed, "model_checking", {
+            "states": states, "transitions": trans, "traces_validated_against_impl": total,
+            "samples": samples or [{"note": "none"}], "evaluations": total,
+            "distinct_nontrivial": len(distinct), "rule": rule, "driver": stats_all,
+            "model": minfo, "exhaustive": False,
+        }, time.time() - t0, len(viol), ASSUME)
+    return 1 if viol else 0
+
+
+def encoder(prop, tier, seed, replay):
+    small, large = (40, 30) if tier == "quick" else (600, 400)
+    return simple_records(
+        prop, tier, seed, replay,
+        model=("MC_Encoder.tla", "MC_Encoder.cfg"),
+        driver_cmd=lambda b, out: "%s/drive-codec buffers --small %d --large %d --seed %d --out %s" % (
+            b, small, large, seed, out),
+        replay_cmd=lambda b, cf, out: "%s/drive-codec buffers --cases %s --out %s" % (b, cf, out),
+        trace_spec=("TraceEncoder.tla", "TraceEncoder.cfg"),
+        case_of=lambda r: {"lens": r["lens"], "buf": r["buf"], "prefill": r["prefill"]},
+        rule="one record = one MessageEncoder::encode call for a message given by its attribute value "
+             "lengths into a buffer of a given length and prefill: every buffer length 0..needed+8 x 3 "
+             "prefills for small messages; buffers around needed / 64 KiB for messages whose body sits at, "
+             "just above and far above 65,535; result, size, untouched tail and independence of spare "
+             "length/prefill judged by TLC against Encoder!SpecResult; non-trivial = buffer at least a "
+             "header; distinct by (lens, buf, prefill)",
+        nontrivial=lambda r: r["buf"] >= 20,
+        sample_of=lambda r: {k: r[k] for k in ("lens", "buf", "prefill", "res", "size", "tail_ok", "same")},
+        builds=("debug",) if tier == "quick" else ("debug", "release"))
+
+
 def run(prop, tier, seed, replay=None):
+    if prop == "C14":
+        return encoder(prop, tier, seed, replay)
+    if prop == "C16":
+        return reasm(prop, tier, seed, replay)
     if prop == "C09":
         return filter_like(prop, tier, seed, replay, unk=False)
     if prop == "C18":
